@@ -26,6 +26,14 @@ func classify(c Case) (labels []string, nontrivial bool) {
 	for _, m := range c.Msgs {
 		wasDiscard := md.Discard
 		exp, _ := md.Step(m)
+		if m.Over {
+			if wasDiscard {
+				set["oversized-while-discarding"] = true
+			} else {
+				set["oversized-in-batch"] = true
+			}
+			continue
+		}
 		if wasDiscard && m.K != "S" {
 			set["discarded-message"] = true
 			nontrivial = true
